@@ -3,7 +3,7 @@
 Decision:
   * Lean theorems (PolarProofs/TrigMoment.lean): the product-to-sum identity with the model's
     coefficient table, the finite-law moment formulas for get_trig_moment / get_exp_moment, the
-    guard of get_func_moment (partial + counterexample).
+    guard of get_func_moment (coded = documented, Sin/Cos + Exp rejected, every returned value sound).
   * structural correspondence (exact): the real `get_func_moment` on a stub distribution with
     uninterpreted transforms; the coefficient table of its result is diffed against polar-model.
   * numeric oracle (evidence, not proof): `get_func_moment` on real distributions, exact and rounded
@@ -336,6 +336,7 @@ def structural(chk, quick):
         if rc != ans["route_intended"]:
             unintended.append({"powers": g, "coded": rc, "intended": ans["route_intended"]})
     chk.coverage["guard_routes_differing_from_documentation"] = unintended
+    chk.obligation("correspondence:guard-as-documented(model)", not unintended, unintended[:3] or None)
     # mgf_exists_at = False must be honoured
     r = res[-1]
     honoured = r.get("status") == "ok" and all(
@@ -396,6 +397,11 @@ def compare_moment(chk, fam, ps, pw, polar, oracle, tag="numeric"):
         chk.evaluations += 1
         if not rec.get("ok") and rec.get("kind") == "raise":
             et = rec["error"]["etype"]
+            if et == "FunctionalAssignmentException" and "cannot be mixed" in rec["error"]["message"] and \
+                    ("Sin" in pw or "Cos" in pw) and "Exp" in pw:
+                chk.count(f"{tag}:mix-refused")
+                chk.nontrivial.add(("mix-refused", fam, tuple(ps), tuple(sorted(pw.items()))))
+                continue
             if missing and et == "FunctionalAssignmentException" and "does not exist" in rec["error"]["message"]:
                 chk.count(f"{tag}:nonexistent-refused")
                 chk.nontrivial.add(("refused", fam, tuple(ps), tuple(sorted(pw.items()))))
@@ -646,6 +652,11 @@ def evaluate_program(chk, c, mode, r, mvals, nmax):
         if c["expect"] == "refuse-nonexistent":
             if et == "FunctionalAssignmentException" and "does not exist" in err.get("message", ""):
                 chk.count("programs:nonexistent-refused")
+                chk.nontrivial.add(c["text"])
+                return "agree"
+        if c["expect"] == "mix":
+            if et == "FunctionalAssignmentException" and "cannot be mixed" in err.get("message", ""):
+                chk.count("programs:mix-refused")
                 chk.nontrivial.add(c["text"])
                 return "agree"
         chk.count(f"programs:refusal:{et}:{err.get('func')}")
